@@ -1,21 +1,21 @@
 #!/bin/bash
-# bin/scratch_matrix.sh [names...] : like seeded_matrix.sh but in the parallel scratch workspace (/tmp/verif2 built
-# against the worktree /tmp/repo2), so /repo stays untouched. Writes seeded/<n>/detected.json.
+# bin/scratch_matrix.sh [names...] : like seeded_matrix.sh but in the parallel scratch workspace (/tmp/verif${SCRATCH:-2} built
+# against the worktree /tmp/repo${SCRATCH:-2}), so /repo stays untouched. Writes seeded/<n>/detected.json.
 V=$(cd "$(dirname "$0")/.." && pwd); cd $V
-rsync -a --exclude target --exclude replays --exclude .git --exclude evidence --exclude Cargo.lock $V/ /tmp/verif2/
-git -C /tmp/repo2 checkout -q -- . ; git -C /tmp/repo2 checkout -q --detach $(git -C /repo rev-parse HEAD)
+rsync -a --exclude target --exclude replays --exclude .git --exclude evidence --exclude Cargo.lock $V/ /tmp/verif${SCRATCH:-2}/
+git -C /tmp/repo${SCRATCH:-2} checkout -q -- . ; git -C /tmp/repo${SCRATCH:-2} checkout -q --detach $(git -C /repo rev-parse HEAD)
 NAMES=${@:-$(ls seeded)}
 for N in $NAMES; do
   P=${N%-*}
-  if ! git -C /tmp/repo2 apply $V/seeded/$N/patch.diff 2>/dev/null; then echo "$N: patch does not apply"; continue; fi
+  if ! git -C /tmp/repo${SCRATCH:-2} apply $V/seeded/$N/patch.diff 2>/dev/null; then echo "$N: patch does not apply"; continue; fi
   RES="{"
   for Q in $P $(cat seeded/$N/also.txt 2>/dev/null); do
-    OUT=$(cd /tmp/verif2 && VERIF_REPO=/tmp/repo2 VERIF_DIR=/tmp/verif2 bin/check $Q quick 2>&1); RC=$?
-    KEYS=$(echo "$OUT" | grep -E '^violation' | sed -E 's/.*key=([^ ]+) detail=.*/\1/' | sed 's#/tmp/repo2#/repo#g' | sort -u | head -6 | tr '\n' ' ')
+    OUT=$(cd /tmp/verif${SCRATCH:-2} && VERIF_REPO=/tmp/repo${SCRATCH:-2} VERIF_DIR=/tmp/verif${SCRATCH:-2} bin/check $Q quick 2>&1); RC=$?
+    KEYS=$(echo "$OUT" | grep -E '^violation' | sed -E 's/.*key=([^ ]+) detail=.*/\1/' | sed 's#/tmp/repo${SCRATCH:-2}#/repo#g' | sort -u | head -6 | tr '\n' ' ')
     WALL=$(echo "$OUT" | grep -oE 'wall=[0-9.]+s' | tail -1)
     RES="$RES\"$Q\": {\"exit\": $RC, \"$WALL\": true, \"violation_keys\": \"$KEYS\"}, "
     echo "$N :: $Q rc=$RC $WALL $KEYS"
   done
-  git -C /tmp/repo2 checkout -q -- .
+  git -C /tmp/repo${SCRATCH:-2} checkout -q -- .
   echo "${RES%, }}" > seeded/$N/detected.json
 done
